@@ -293,6 +293,20 @@ def _run_patch(case: dict, env: core.Env) -> None:
             env.witness(f"C20/patch/reentry/refused/{scen}", f"{type(e).__name__}: {e}")
         for name in _leaks():
             env.witness(f"C20/patch/after-reentry/not-restored/{name}", "after plain re-entry")
+        # ---- and a later patch() without extra targets replaces the standard names only: what an earlier entry was asked
+        # to patch (or failed to) is not remembered
+        env.count("cmp_reentry")
+        try:
+            with fakesnow.patch():
+                for name, mod, attr, orig in _watched():
+                    if not name.startswith("std.") and getattr(mod, attr) is not orig:
+                        env.witness(f"C20/patch/plain-entry-patches-earlier-extra-target/{name}", f"after patch({targets}) and its re-entry, patch() replaced {name}")
+                if not isinstance(s["sc"].connect, mock.MagicMock):
+                    env.witness(f"C20/patch/reentry/not-patched/{scen}", "plain patch() after the case did not patch")
+        except Exception as e:  # noqa: BLE001
+            env.witness(f"C20/patch/reentry/refused/plain-after-{scen}", f"{type(e).__name__}: {e}")
+        for name in _leaks():
+            env.witness(f"C20/patch/after-reentry/not-restored/{name}", "after the final plain entry")
     if toks:
         env.nontrivial(case)
 
